@@ -314,6 +314,22 @@ def _check_case(spec, seed, res, count=True):
         factory = LanguageClassesFactory(lg)
     except Exception as exc:
         return ('build:raised-%s' % type(exc).__name__, 'building classes for a well-formed language raised %r' % (exc,))
+    same = [a for a in lang.assocs if a['leftField'] == a['rightField']]
+    if same:
+        # X [f] <-- A --> [f] Y (legal MAL: every asset type still has one field f).  Only this is observed for such
+        # a language: does the generated class expose the two ends?
+        if count:
+            res.count('langs-with-same-field-name-at-both-ends')
+        a = same[0]
+        sch = factory.json_schema['definitions']['LanguageAssociation']['definitions'].get(a['name'], {})
+        entries = [sch] + list(sch.get('definitions', {}).values())
+        if not any(len(e.get('properties', {})) >= 2 for e in entries):
+            return ('classes.associations:same-field-name-both-ends',
+                    'association %s: %s [%s] <--> [%s] %s uses one field name for both ends; the generated class has the properties %s: '
+                    'the two ends cannot be told apart (instantiating asset classes of such a language can fail as well)' % (
+                        a['name'], a['leftAsset'], a['leftField'], a['rightField'], a['rightAsset'],
+                        [sorted(e.get('properties', {})) for e in entries]))
+        return None
     f = check_classes(lang, factory, res, count)
     if f:
         return f
@@ -338,7 +354,7 @@ def run(rng, res, tier, shard, nshards):
         if first_round and shard == 0:
             spec, src = corelang_spec('core'), 'corelang'
         else:
-            spec, src = gen_language(rng, Cfg(max_assets=6, max_assocs=6, max_depth=1, dup_assoc_names=0.4, same_sig_dups=rng.choice([0.0, 0.0, 0.0, 0.5]),
+            spec, src = gen_language(rng, Cfg(max_assets=6, max_assocs=6, max_depth=1, dup_assoc_names=0.4, same_sig_dups=rng.choice([0.0, 0.0, 0.0, 0.5]), same_field_both_ends=rng.choice([0.0, 0.0, 0.0, 0.15]),
                                               inherit_bias=rng.choice([0.5, 0.8]))), 'generated'
         first_round = False
         seed = rng.randrange(10 ** 9)
